@@ -166,6 +166,9 @@ class Emitter:
                 return ("opt", self.ty_of_ast(ty.args[0]))
             if name in ("Vec", "VecDeque", "ArrayVec") and ty.args:
                 return ("list", self.ty_of_ast(ty.args[0]))
+            if name == "Result" and ty.args and self.v.get("result"):
+                # io::Result<T> (vocabulary key `result`): the sum  T + <error type>
+                return ("res", self.ty_of_ast(ty.args[0]))
             if name in self.v.get("enums", {}):
                 return ("enum", name)
             if name in self.v.get("structs", {}):
@@ -195,6 +198,8 @@ class Emitter:
             return t[1]
         if k == "sink":
             return self.v["sinks"][t[1]]["coq"]
+        if k == "res":
+            return "(%s + %s)" % (self.coq_ty(t[1]), self.v["result"]["err"])
         return "_"
 
     # -- monad helpers -------------------------------------------------------
@@ -241,6 +246,8 @@ class Emitter:
                 e = e.e
             elif e.kind == "mcall" and e.name in ("as_mut", "as_ref", "by_ref", "borrow_mut") and not e.args:
                 e = e.recv
+            elif e.kind == "mcall" and not e.args and e.name in self.v.get("transparent_places", ()):
+                e = e.recv
             else:
                 return None
 
@@ -258,6 +265,12 @@ class Emitter:
             return self.write_place(place.e, term, env, k)
         if place.kind == "unary" and place.op in ("*",):
             return self.write_place(place.e, term, env, k)
+        if place.kind == "unary" and place.op == "&mut":
+            # `&mut place` handed to a `&mut` parameter: the callee's new value goes back to the place
+            return self.write_place(place.e, term, env, k)
+        if place.kind == "mcall" and not place.args and place.name in self.v.get("transparent_places", ()):
+            # vocabulary `transparent_places`: methods that hand out a write-through view of their receiver
+            return self.write_place(place.recv, term, env, k)
         if place.kind == "path" and len(place.segs) == 1:
             name = place.segs[0]
             v = env.get(name)
@@ -546,6 +559,10 @@ class Emitter:
 
     def e_index(self, e, env, k):
         def k1(base, bty, env1):
+            hook = self.v.get("index", {}).get(bty[1] if bty[0] in ("struct", "enum") else bty[0])
+            if hook is not None:
+                # vocabulary `index`: {type name: callable(em, e, base term, base type, env, k)}
+                return hook(self, e, base, bty, env1, k)
             elt = bty[1] if bty[0] == "list" else UNKNOWN
             if e.idx.kind == "range":
                 def with_lo(lo, env2):
@@ -652,6 +669,8 @@ class Emitter:
         ty = next((t for _, t, _ in rec if t not in (UNKNOWN, ("never",))), rec[0][1])
         for _, t, _ in rec:
             if t[0] == "opt" and ty[0] == "opt" and ty[1] == UNKNOWN:
+                ty = t
+            if t[0] == "res" and ty[0] == "res" and ty[1] == UNKNOWN:
                 ty = t
         if not diverged and not self.pure_mode and "None (* no arm" not in code:
             # every branch falls through: the branching statement is an expression yielding the
@@ -886,6 +905,9 @@ class Emitter:
         if k == "ptstruct":
             name = p.segs[-1]
             inner = ty[1] if ty[0] == "opt" else UNKNOWN
+            if ty[0] == "res" and name in ("Ok", "Err"):
+                inner = ty[1] if name == "Ok" else ("coq", self.v["result"]["err"])
+                name = "inl" if name == "Ok" else "inr"
             return "(%s %s)" % (name, " ".join(self.coq_pattern(x, inner, binds) for x in p.elems))
         if k == "ptuple":
             tys = ty[1] if ty[0] == "tuple" and len(ty[1]) == len(p.elems) else [UNKNOWN] * len(p.elems)
@@ -1071,6 +1093,10 @@ class Emitter:
         if f.kind != "path":
             raise EmitError("call of a non-path expression")
         name = f.segs[-1]
+        if len(f.segs) == 1 and name in ("Ok", "Err") and self.v.get("result"):
+            if name == "Ok":
+                return self.expr(e.args[0], env, lambda t, ty, env1: k("(inl %s)" % t, ("res", ty), env1))
+            return self.expr(e.args[0], env, lambda t, ty, env1: k("(inr %s)" % t, ("res", UNKNOWN), env1))
         if len(f.segs) == 1 and name in ("Some", "Ok"):
             return self.expr(e.args[0], env, lambda t, ty, env1: k("(Some %s)" % t, ("opt", ty), env1))
         key = "::".join(f.segs[-2:]) if len(f.segs) >= 2 else name
@@ -1394,6 +1420,9 @@ class Emitter:
         return self.expr(it, env, k1)
 
     def e_for(self, e, env, k):
+        lz = self.lazy_iter_of(e.iter, env)
+        if lz is not None:
+            return self.for_lazy(e, lz, env, k)
         st = self.assigned(e.body, env)
         ret = self.has_return(e.body)
 
@@ -1435,6 +1464,98 @@ class Emitter:
                 r, fterm, lst, init, r, s2, ind(self.unpack_state(st, s2, env1, lambda env4: k("tt", UNIT, env4)), 4),
                 v, ind(self.ctl.ret(env1, v, UNKNOWN), 4))
         return self.iter_source(e.iter, env, k_src)
+
+    # -- lazy iterators (vocabulary `lazy_iters`) ----------------------------------
+    # `for x in recv.method(args) { body }` where the iterator borrows `recv` mutably and advances it
+    # one element per `next` (StripBytes::strip_next): the loop is a fuelled while over
+    # (cursor, assigned variables incl. recv); every `next` threads recv through the vocabulary's
+    # step function  next : cursor -> recv -> option (option elt * cursor * recv).
+    # entry: {(type name, method): {"new": coq fn of the call's arguments -> cursor, "next": coq fn,
+    #                               "elt": element type}}
+    def lazy_iter_of(self, it, env):
+        tab = self.v.get("lazy_iters")
+        if not tab or it.kind != "mcall":
+            return None
+        root = self.place_root(it.recv)
+        rv = env.get(root) if root else None
+        if rv is None or it.recv.kind not in ("path",):
+            return None
+        tname = rv.ty[1] if rv.ty[0] in ("struct", "enum") else rv.ty[0]
+        ent = tab.get((tname, it.name))
+        if ent is None:
+            return None
+        return (ent, root, it)
+
+    def for_lazy(self, e, lz, env, k):
+        ent, root, it = lz
+        fuel = self.loop_fuel()
+        acc = self.assigned(e.body, env)
+        st = [n for n in env.vars if n in acc or n == root]
+        ret = self.has_return(e.body)
+
+        def k_args(ats, _tys, env1):
+            cur0 = "(%s %s)" % (ent["new"], " ".join(ats)) if ats else ent["new"]
+            cur = self.fresh("it")
+            env2 = env1
+            stn = []
+            for n in st:
+                c = self.fresh(env1.get(n).coq.rstrip("0123456789") or n)
+                stn.append(c)
+                env2 = env2.rebind(n, c)
+            tup = lambda envx, cu: self.tuple_of([cu] + [envx.get(n).coq for n in st])
+            nxt, brk = ("LNext", "LBreak") if ret else ("BNext", "BBreak")
+            o = self.fresh("o")
+            cur1 = self.fresh("it")
+            r1 = self.fresh(env2.get(root).coq.rstrip("0123456789") or root)
+            env3 = env2.rebind(root, r1)
+            x = self.fresh("x")
+            old = self.ctl
+            oldpm = self.pure_mode
+            self.pure_mode = 0
+            if ret:
+                retf = lambda envx, t, ty: "Some (LRet (%s, %s))" % (tup(envx, cur1), t)
+            else:
+                retf = lambda envx, t, ty: (_ for _ in ()).throw(EmitError("return inside a loop translated without return"))
+            self.ctl = Ctl(retf, lambda envx: "Some (%s %s)" % (brk, tup(envx, cur1)), lambda envx: "Some (%s %s)" % (nxt, tup(envx, cur1)))
+            try:
+                body = self.bind_pattern(e.pat, x, ent["elt"], env3,
+                                         lambda env4: self.expr(e.body, env4, lambda _t, _ty, envx: "Some (%s %s)" % (nxt, tup(envx, cur1))))
+            finally:
+                self.ctl = old
+                self.pure_mode = oldpm
+            step = "'(%s, %s, %s) <- %s %s %s ;;\nmatch %s with\n| None => Some (%s %s)\n| Some %s =>\n%s\nend" % (
+                o, cur1, r1, ent["next"], cur, env2.get(root).coq, o, brk, tup(env3, cur1), x, ind(body, 4))
+            fterm = "(fun '(%s) =>\n%s)" % (", ".join([cur] + stn), ind(step, 4))
+            init = self.tuple_of([cur0] + [env1.get(n).coq for n in st])
+            if self.pure_mode:
+                raise NeedsBind()
+
+            def after(envx, kk):
+                """rebind the loop variables from a fresh tuple pattern; kk(pattern, env)"""
+                names = [self.fresh("it")]
+                env5 = envx
+                for n in st:
+                    c = self.fresh(envx.get(n).coq.rstrip("0123456789") or n)
+                    names.append(c)
+                    env5 = env5.rebind(n, c)
+                return kk("(" + ", ".join(names) + ")", env5)
+            if not ret:
+                r = self.fresh("st")
+                return "%s <- while_fuel0 %s %s %s ;;\n%s" % (
+                    r, fuel, fterm, init, after(env1, lambda pat, env5: "let '%s := %s in\n%s" % (pat, r, k("tt", UNIT, env5))))
+            r = self.fresh("lr")
+            v = self.fresh("rv")
+            return "%s <- while_fuel %s %s %s ;;\nmatch %s with\n| inl %s\n| inr %s\nend" % (
+                r, fuel, fterm, init, r,
+                after(env1, lambda pat, env5: "%s =>\n%s" % (pat, ind(k("tt", UNIT, env5), 4))),
+                after(env1, lambda pat, env5: "(%s, %s) =>\n%s" % (pat, v, ind(self.ctl.ret(env5, v, UNKNOWN), 4))))
+        return self.exprs(it.args, env, k_args)
+
+    # a closure as a value (bound by `let`, handed to a vocabulary function): the state-passing
+    # function of closure_st; its type records the captured (assigned) variables
+    def e_closure(self, e, env, k):
+        ptys = [self.ty_of_ast(ty) if ty is not None else UNKNOWN for _p, ty in e.params]
+        return self.closure_st(e, ptys, env, lambda fterm, cap, env1: k(fterm, ("closure", tuple(cap), tuple(ptys)), env1))
 
     def e_while(self, e, env, k):
         return self.while_like(e.cond, e.body, env, k)
@@ -1490,6 +1611,13 @@ class Emitter:
 
     def e_try(self, e, env, k):
         def k1(t, ty, env1):
+            if ty[0] == "res":
+                if self.pure_mode:
+                    raise NeedsBind()
+                x = self.fresh("q")
+                er = self.fresh("err")
+                return "match %s with\n| inl %s =>\n%s\n| inr %s =>\n%s\nend" % (
+                    t, x, ind(k(x, ty[1], env1), 4), er, ind(self.ctl.ret(env1, "(inr %s)" % er, ("res", UNKNOWN)), 4))
             if ty[0] != "opt":
                 raise EmitError("? on %r" % (ty,))
             if self.pure_mode:
